@@ -37,7 +37,7 @@ RULE = ("sweep: one case per (table, element | isotope); non-trivial when the at
 
 getcontext().prec = 60
 FIELDS = ["b_c", "bp", "bm", "coherent", "incoherent", "total", "absorption", "abundance", "is_energy_dependent",
-          "b_c_complex.real", "b_c_complex.imag", "b_c_i", "bp_i", "bm_i", "has_sld", "nsf_table"]
+          "b_c_complex.real", "b_c_complex.imag", "b_c_i", "bp_i", "bm_i", "has_sld", "nsf_table", "_number_density"]
 
 
 # =========================================================================== observation
@@ -52,7 +52,7 @@ def obs_rec(atom):
                       1.0 if n.is_energy_dependent else 0.0,
                       None if bcc is None else bcc.real, None if bcc is None else bcc.imag,
                       n.b_c_i, n.bp_i, n.bm_i, 1.0 if n.has_sld() else 0.0,
-                      None if tbl is None else float(len(tbl[0]))])
+                      None if tbl is None else float(len(tbl[0])), n._number_density])
 
 
 def observe_table(tbl, zs):
@@ -82,7 +82,7 @@ def parse_rec(toks):
     """model reply of showRec -> (id, values)"""
     rid = int(toks[0])
     vals = []
-    for i, t in enumerate(toks[1:17]):
+    for i, t in enumerate(toks[1:18]):
         if i in (8, 14):
             vals.append(float(t))
         elif i == 15:
@@ -145,7 +145,7 @@ def compare(run: Run, corr, obs, rep, atoms, table_atoms, tables_py, nodes, node
             el_ids[z] = rid
         else:
             ok = ok and ((rid == el_ids.get(z)) == o["shared"])
-            spin = toks[17]
+            spin = toks[18]
             mspin = "X" if spin == "X" else bytes.fromhex(spin if spin != "-" else "").decode()
             ok = ok and (mspin == o["spin"])
         if not ok:
